@@ -88,8 +88,12 @@ func walkAttributes(elem *etree.Element) {
 		} else if y.Space == "xmlns" && x.Space != "xmlns" {
 			return false
 		}
-		// then order by namespace and finally by key
+		// then order by namespace URI (not prefix) and finally by key
 		if x.Space != y.Space {
+			xu, yu := attrSpaceURI(elem, x.Space), attrSpaceURI(elem, y.Space)
+			if xu != yu {
+				return xu < yu
+			}
 			return x.Space < y.Space
 		}
 		return x.Key < y.Key
@@ -108,6 +112,24 @@ func walkAttributes(elem *etree.Element) {
 		}
 		i++
 	}
+}
+
+// namespace URI that an attribute prefix is bound to at this element.
+// Unprefixed attributes are in no namespace and sort first.
+func attrSpaceURI(elem *etree.Element, space string) string {
+	if space == "" {
+		return ""
+	} else if space == "xml" {
+		return "http://www.w3.org/XML/1998/namespace"
+	}
+	for e := elem; e != nil; e = e.Parent() {
+		for _, attr := range e.Attr {
+			if attr.Space == "xmlns" && attr.Key == space {
+				return attr.Value
+			}
+		}
+	}
+	return space
 }
 
 // does this element or its attributes reference the given namespace?
